@@ -15,6 +15,7 @@ CALLS = {}        # (plugin_name, callback) -> number of calls so far
 INSTANCES = {}    # plugin_name -> [instances]
 KEPT_LABELS = []  # (labels object as handed to a metric processor, copy taken at that moment)
 HOOK = [None]     # optional callable(plugin_name, callback, payload) run at every record (for rigs)
+BARE_FAULTS = [False]   # True: every injected fault is an exception without arguments
 _tls = threading.local()   # .idx = call index of the record the hook is running for (per thread)
 
 
@@ -29,6 +30,7 @@ def reset():
         CALLS.clear()
         INSTANCES.clear()
         del KEPT_LABELS[:]
+        BARE_FAULTS[0] = False
         HOOK[0] = None
 
 
@@ -44,6 +46,8 @@ def _rec(name, callback, payload=None):
         _tls.idx = idx
         hook(name, callback, payload)
     if plan is not None and (plan == '*' or idx in plan):
+        if idx % 3 == 2 or BARE_FAULTS[0]:
+            raise PluginFault()       # failures do not always come with a message
         raise PluginFault('%s.%s call %d' % (name, callback, idx))
     return idx
 
